@@ -87,6 +87,8 @@ H('k4_chain_of_three_order', 'hooks', ['tarpc/src/server/request_hook/before.rs:
 H('k5_cycle_next_is_counter_mod_len', 'cycle', ['tarpc/src/client/stub/load_balance.rs::round_robin::cycle::State::next'],
   'next() returns element counter % len and advances the counter by one (wrapping); full domain in the counter',
   bounded='backend count enumerated 1..=4 (the index arithmetic itself is width-independent)')
+H('k5_cycle_next_upto8', 'cycle', ['tarpc/src/client/stub/load_balance.rs::round_robin::cycle::State::next'],
+  'same contract, backend count enumerated 1..=8', bounded='backend count enumerated 1..=8', tier='thorough', timeout=1500)
 H('k5_round_robin_call_uses_next', 'round_robin', ['tarpc/src/client/stub/load_balance.rs::RoundRobin::call', 'tarpc/src/client/stub/load_balance.rs::RoundRobin::new'],
   'successive calls go to backends 0,1,2,0; request and result pass through', bounded='3 backends, 4 calls')
 H('k5_consistent_hash_valid_and_stable', 'consistent_hash', ['tarpc/src/client/stub/load_balance.rs::ConsistentHash::with_hasher', 'tarpc/src/client/stub/load_balance.rs::ConsistentHash::call', 'tarpc/src/client/stub/load_balance.rs::ConsistentHash::hash_request'],
